@@ -360,6 +360,7 @@ def run(ctx):
     # ---- shared ----
     ctx.borrow("C02", {"C02.R1": "C05.R6"}, "files read by another implementation must contain specification-encoded records")
     ctx.borrow("C03", {"C03.R1": "C05.R7"}, "files written by another implementation may use every form the specification allows (e.g. sized array/map blocks in any block): the reader must accept the full grammar")
+    ctx.borrow("C04", {"C04.R4": "C05.R10"}, "a block's payload is the whole serialised record run under the codec the header names: another implementation decompresses it with that codec's standard framing and must find every record")
     ctx.borrow("C04", {"C04.R2": "C05.R8"}, "the header another implementation reads must carry the schema and codec actually used")
 
 
